@@ -677,44 +677,76 @@ def X4(ctx: Ctx) -> RuleResult:
     fi = hp.methods.get('parse')
     if fi is None:
         raise AnalysisError('X4', 'HplParser.parse not found')
-    tries = [n for n in ast.walk(fi.node) if isinstance(n, ast.Try)]
-    lark_calls = [n for n in ast.walk(fi.node) if isinstance(n, ast.Call) and isinstance(n.func, ast.Attribute) and n.func.attr == 'parse' and 'lark' in ast.unparse(n.func.value)]
+    # methods of HplParser reachable from parse through self.<method>() calls
+    reach: List[FunctionInfo] = [fi]
+    call_sites: Dict[str, List[Tuple[FunctionInfo, ast.Call]]] = {}
+    todo = [fi]
+    while todo:
+        f0 = todo.pop()
+        for n in ast.walk(f0.node):
+            if isinstance(n, ast.Call) and isinstance(n.func, ast.Attribute) and isinstance(n.func.value, ast.Name) and n.func.value.id in ('self', 'cls'):
+                m2 = hp.resolve(n.func.attr)
+                if m2 is not None:
+                    call_sites.setdefault(m2.key, []).append((f0, n))
+                    if all(m2 is not x for x in reach):
+                        reach.append(m2)
+                        todo.append(m2)
+    lark_calls = [(f0, n) for f0 in reach for n in ast.walk(f0.node)
+                  if isinstance(n, ast.Call) and isinstance(n.func, ast.Attribute) and n.func.attr == 'parse' and 'lark' in ast.unparse(n.func.value)]
     if not lark_calls:
-        raise AnalysisError('X4', 'no call of the lark parser found in HplParser.parse')
+        raise AnalysisError('X4', 'no call of the lark parser found in HplParser.parse or the methods it calls')
     need = {'UnexpectedToken', 'UnexpectedCharacters'}
-    for call in lark_calls:
-        handlers = []
-        for t in tries:
-            if any(call is x for b in t.body for x in ast.walk(b)):
-                handlers.extend(t.handlers)
-        names: Set[str] = set()
-        for h in handlers:
-            if h.type is None:
-                names.add('BaseException')
+    guard_tries: List[ast.Try] = []
+
+    def enclosing(f0: FunctionInfo, node: ast.AST) -> List[ast.Try]:
+        return [t for t in ast.walk(f0.node) if isinstance(t, ast.Try) and any(node is x for b in t.body for x in ast.walk(b))]
+
+    def handler_names(f0: FunctionInfo, h: ast.ExceptHandler) -> Set[str]:
+        if h.type is None:
+            return {'BaseException'}
+        ty = h.type
+        if isinstance(ty, ast.Name) and ty.id in f0.module.assigns and isinstance(f0.module.assigns[ty.id], ast.Tuple):
+            ty = f0.module.assigns[ty.id]  # a module-level tuple of exception classes
+        return {ast.unparse(x).split('.')[-1] for x in (ty.elts if isinstance(ty, ast.Tuple) else [ty])}
+
+    def paths(f0: FunctionInfo, node: ast.AST, depth: int = 0) -> List[List[Tuple[FunctionInfo, ast.ExceptHandler]]]:
+        """for every way control reaches `node` from parse: the handlers that enclose it"""
+        own = [(f0, h) for t in enclosing(f0, node) for h in t.handlers]
+        guard_tries.extend(enclosing(f0, node))
+        if f0 is fi or depth > 3:
+            return [own]
+        res = []
+        for f1, site in call_sites.get(f0.key, []):
+            for pth in paths(f1, site, depth + 1):
+                res.append(own + pth)
+        return res or [own]
+    for f0, call in lark_calls:
+        for handlers in paths(f0, call):
+            names: Set[str] = set()
+            for fh, h in handlers:
+                names |= handler_names(fh, h)
+            covered = need <= names or bool(names & {'UnexpectedInput', 'LarkError', 'Exception', 'BaseException'})
+            if covered:
+                r.ok(f'lark call in {f0.name} guarded by handlers {sorted(names)}')
             else:
-                names.update(ast.unparse(x).split('.')[-1] for x in (h.type.elts if isinstance(h.type, ast.Tuple) else [h.type]))
-        covered = need <= names or bool(names & {'UnexpectedInput', 'LarkError', 'Exception', 'BaseException'})
-        if covered:
-            r.ok(f'lark call guarded by handlers {sorted(names)}')
-        else:
-            r.fail('HplParser.parse:handlers', f'lark exceptions {sorted(need - names)} are not caught: a raw lark error escapes instead of HplSyntaxError', fi.where, sorted(need), sorted(names))
-        for h in handlers:
-            rs = [n for n in ast.walk(h) if isinstance(n, ast.Raise)]
-            if not rs:
-                r.fail('HplParser.parse:handler-body', 'a handler swallows the parse error (no raise)', f'{fi.module.relpath}:{h.lineno}')
-            for x in rs:
-                cls = raise_class(ctx, fi, x)
-                if cls != 'HplSyntaxError':
-                    r.fail('HplParser.parse:handler-raise', f'handler raises {cls}, not HplSyntaxError', f'{fi.module.relpath}:{x.lineno}')
-                else:
-                    r.ok('handler raises HplSyntaxError')
-            # attributes read from the exception
-            _check_exc_attrs(ctx, r, fi, h, names)
+                r.fail('HplParser.parse:handlers', f'lark exceptions {sorted(need - names)} are not caught: a raw lark error escapes instead of HplSyntaxError', f0.where, sorted(need), sorted(names))
+            for fh, h in handlers:
+                rs = [n for n in ast.walk(h) if isinstance(n, ast.Raise)]
+                if not rs:
+                    r.fail('HplParser.parse:handler-body', 'a handler swallows the parse error (no raise)', f'{fh.module.relpath}:{h.lineno}')
+                for x in rs:
+                    cls = raise_class(ctx, fh, x)
+                    if cls != 'HplSyntaxError':
+                        r.fail('HplParser.parse:handler-raise', f'handler raises {cls}, not HplSyntaxError', f'{fh.module.relpath}:{x.lineno}')
+                    else:
+                        r.ok('handler raises HplSyntaxError')
+                # attributes read from the exception
+                _check_exc_attrs(ctx, r, fh, h, handler_names(fh, h) if len(handlers) > 1 else names)
     # nothing else in parser.py catches
     pm = ctx.model.module('hpl.parser')
     for f2 in list(pm.functions.values()) + [m for c in pm.classes.values() for m in c.methods.values()]:
         for t in ast.walk(f2.node):
-            if isinstance(t, ast.Try) and f2 is not fi:
+            if isinstance(t, ast.Try) and not any(t is g for g in guard_tries):
                 ok = _int_float_fallback(t)
                 if ok:
                     r.ok(f'{f2.qualname}: int()/float() fallback (except ValueError)')
